@@ -18,11 +18,13 @@ type Ctx struct {
 	R    *core.Report
 	Tier string
 
-	switches []*model.TypeSwitch
-	iroles   *IRoles
-	grammar  *model.Grammar
-	gramErr  error
-	reach    map[string]map[*ssa.Function]*ssa.Function
+	switches      []*model.TypeSwitch
+	iroles        *IRoles
+	grammar       *model.Grammar
+	gramErr       error
+	reach         map[string]map[*ssa.Function]*ssa.Function
+	lf            *lenFacts
+	counterFields map[*types.Var]bool
 }
 
 func NewCtx(p *core.Program, r *core.Report, tier string) *Ctx {
